@@ -139,6 +139,103 @@ func CheckC02(c *Ctx) {
 			c.Distinct.Add(HashBytes(vi, base) ^ uint64(i)<<32)
 		})
 	}
+	// COMPLETE WALK (thorough; quick: a seeded fraction of the chunks): every configuration of the optional
+	// metrics of v3.0 / v3.1 (221,184,000 each) and of v4.0's threat + environmental metrics (1,179,648,000;
+	// supplemental seeded per chunk) in Gray-code order, one Set per step on one object, each configuration
+	// serialised, parsed back and compared with ==
+	for vi, api := range probe.APIs {
+		if vi == spec.V20 {
+			continue
+		}
+		api := api
+		v := api.Ver
+		var opt []int
+		for m, me := range v.Metrics {
+			if !me.Mandatory && me.Group != spec.GSupp {
+				opt = append(opt, m)
+			}
+		}
+		pre := 3
+		if v.ID == spec.V40 {
+			pre = 4
+		}
+		nChunks := 1
+		for _, m := range opt[:pre] {
+			nChunks *= len(v.Metrics[m].Values)
+		}
+		stride := 1
+		if c.Quick {
+			stride = 20
+			if v.ID == spec.V40 {
+				stride = 128
+			}
+		}
+		off := c.Rand("walk-offset", v.Name).Intn(stride)
+		walk := opt[pre:]
+		c.Parallel("configuration-walk-"+v.Name, (nChunks-off+stride-1)/stride, 1, func(w *Worker, k int) {
+			ci := off + k*stride
+			a := gen.KSparseAssign(w.R, v, 0)
+			for mI, me := range v.Metrics {
+				if me.Group == spec.GSupp {
+					a[mI] = uint8(w.R.Intn(len(me.Values)))
+				}
+			}
+			x := ci
+			for _, m := range opt[:pre] {
+				n := len(v.Metrics[m].Values)
+				a[m] = uint8(x % n)
+				x /= n
+			}
+			o, fail := Build(api, a, HSetInOrder, w.R, nil)
+			if fail != "" {
+				c.Violate(Violation{Kind: "cannot-build-object", Version: v.Name, Expected: v.Canonical(a), Observed: fail})
+				return
+			}
+			n := len(walk)
+			dig, foc, dir := make([]int, n), make([]int, n+1), make([]int, n)
+			for j := range foc {
+				foc[j] = j
+			}
+			for j := range dir {
+				dir[j] = 1
+			}
+			var cnt int64
+			for {
+				s, p := probe.SafeVector(o)
+				q, err, pp := api.SafeParse(s)
+				cnt++
+				if p != nil || pp != nil || err != nil || q == nil || !q.Equal(o) {
+					b := a.Clone()
+					for j, m := range walk {
+						b[m] = uint8(dig[j])
+					}
+					c.Violate(Violation{Kind: "roundtrip-not-equal", Version: v.Name, Steps: []Step{{Op: "parse", S: v.Canonical(b)}, {Op: "vector"}, {Op: "parse", S: s}},
+						Expected: "Vector() of the object holding " + v.Canonical(b) + " parses back to an equal object", Observed: fmt.Sprintf("Vector()=%q err=%v panic=%v/%v", s, err, p, pp), Detail: map[string]any{"workload": "configuration-walk"}})
+					if c.nviolA.Load() > 100 {
+						break
+					}
+				}
+				j := foc[0]
+				foc[0] = 0
+				if j == n {
+					break
+				}
+				dig[j] += dir[j]
+				if dig[j] == 0 || dig[j] == len(v.Metrics[walk[j]].Values)-1 {
+					dir[j] = -dir[j]
+					foc[j] = foc[j+1]
+					foc[j+1] = j + 1
+				}
+				if err, p := probe.SafeSet(o, v.Metrics[walk[j]].Abv, v.Metrics[walk[j]].Values[dig[j]]); err != nil || p != nil {
+					c.Violate(Violation{Kind: "cannot-build-object", Version: v.Name, Expected: "legal Set succeeds", Observed: fmt.Sprint(err, p)})
+					break
+				}
+			}
+			w.EvalN(2 * cnt)
+			w.Acc[61] += cnt
+			w.counts["configurations-walked-v"+v.Name] += cnt
+		})
+	}
 	exhaustiveV2 := false
 	// v2: complete enumeration in thorough, sample in quick
 	{
@@ -188,12 +285,12 @@ func CheckC02(c *Ctx) {
 		}
 	})
 	cellFloor(c)
-	n := c.Distinct.Count()
+	n := c.Distinct.Count() + c.Acc[61]
 	if exhaustiveV2 {
 		n += 139968000
 	}
 	c.SetReport(Report{
-		Rule:        "objects are built only through the public API in five history styles (parse canonical, parse non-canonical spelling, Set in order, Set in random order with decoys and failing Sets, clone then Set), plus zero values and every object accepted from the hostile string stream; each is serialised, parsed back, compared with == and on every Get. distinct = distinct assignments (hash set; v2 thorough: complete enumeration counted by index); non-trivial = all. exhaustive=true refers to the v2.0 space only (thorough tier).",
+		Rule:        "objects are built only through the public API in five history styles (parse canonical, parse non-canonical spelling, Set in order, Set in random order with decoys and failing Sets, clone then Set), plus zero values and every object accepted from the hostile string stream; each is serialised, parsed back, compared with == and on every Get. distinct = distinct assignments (hash set; v2 thorough: complete enumeration counted by index); non-trivial = all. Plus a Gray-code configuration walk (one Set per step): thorough visits ALL 221,184,000 optional-metric configurations of v3.0 and of v3.1 and all 1,179,648,000 threat+environmental configurations of v4.0 (quick: 1 chunk in 20 / 128). exhaustive=true (thorough tier) refers to v2.0 completely and to v3/v4 up to base and supplemental values, which are seeded.",
 		Exhaustive:  exhaustiveV2,
 		DistinctN:   n,
 		Assumptions: []string{"v3/v4 spaces are sampled; the floor is all (metric,value) pairs and all pairs of (metric,value) choices"},
